@@ -30,7 +30,7 @@ CLAIM = ('Three necessary conditions of chunk-boundary independence in readChunk
          'every read; the decoder is the one of the resolved encoding object; reset() re-initialises every '
          'attribute the reading methods write; unget() at a chunk start compensates the position counters '
          '(known finding: it does not).'
-         ' A one-character read that is a CR / lead surrogate is extended by the next read; errors queued by the chunk-level character scan carry no position (known finding); the pre-scan buffer is completed across short reads. After every read-ahead that appends to the chunk the last-character test is evaluated again before the chunk is normalised.')
+         ' A one-character read that is a CR / lead surrogate is extended by the next read; errors queued by the chunk-level character scan carry no position (known finding); the pre-scan buffer is completed across short reads. After every read-ahead that appends to the chunk the last-character test is evaluated again before the chunk is normalised. The decoding reader over a byte source returns \'\' only at the end of the input (run on sources that split a character across reads).')
 NOT_DECIDED = ('everything else: line/column arithmetic inside _position, BufferedStream replay, decoder behaviour, '
                'equality of trees and error lists for all segmentations.')
 MODULES = ["_inputstream.py"]
